@@ -131,7 +131,13 @@ Simple(call) ==
        ELSE IF P.s.conn # "open" THEN
             /\ st' = P.s
             /\ last' = Label(call, <<>>, d, NoDec, P.lines, "io", P.reads, <<>>)
-       ELSE \E c \in SimpleReplies(call) :
+       ELSE \E c \in SimpleReplies(call) \cup {"stall"} :
+            IF c = "stall" THEN
+                 \* no reply within CommandTimeout: the call gives up with a transport
+                 \* error; a late reply would be out of step, so only Close is left
+                 /\ st' = [P.s EXCEPT !.conn = "stuck"]
+                 /\ last' = Label(call, <<>>, d, c, Append(P.lines, <<SimpleVerb(call)>>), "io", P.reads, <<>>)
+            ELSE
             LET ok == c = SimpleOK(call)
                 s2 == CASE ok /\ call = "Reset" ->
                              [P.s EXCEPT !.h = "no", !.rcpts = <<>>, !.sTxn = FALSE, !.sList = <<>>]
@@ -346,7 +352,7 @@ Utf8NotDropped ==
 \* C15: lock step - every command line written is answered before the call returns
 \* (the message body counts as one step answered by its final replies)
 OneLinePerStep ==
-  last.call \notin {"init", "WClose", "SendMail"} =>
+  (last.call \notin {"init", "WClose", "SendMail"} /\ last.dec.c # "stall") =>
      Len(Lines) + (IF last.dec.g \in {"220", "554"} THEN 1 ELSE 0) = last.reads
 
 \* MAIL is only ever sent to a peer that accepted a greeting command
